@@ -13,6 +13,13 @@ Stages (see run()):
   W:outcome           the same experiments against the model's prediction (crash n ; attempt ; attempt), including the state
                       of .bfg_find_deps and .bfg_find_deps.tmp right after the fault
   oracle:script_raise a build script (or a rule emission) that raises leaves the previous build file byte-identical
+  toolchain files     (spec['tc']) the project is configured with --toolchain FILE; edit = 'toolchain' rewrites that file (an
+                      explicit regeneration input that no build script names); in oracle:script_raise the edited toolchain
+                      file raises, and every failing history is continued: the mistake is corrected and the next make must
+                      succeed with files equal to a fresh configure of the corrected tree
+  oracle:regen_inputs every recorded project (build directory after the regeneration and the fresh configure): the inputs of
+                      the regeneration step persisted in .bfg_find_cache (what `regenerate --lazy` compares) are the same
+                      set as the prerequisites of the build file's regeneration rule (what make / ninja compares)
   history `options`   (edit = 'options') nothing in the tree changes: the existing build directory is configured AGAIN with other
                       options (prefix, library mode), that run is faulted at every mutation point, and the next regeneration
                       attempt is the backend's own command `bfg9000 regenerate --lazy` (then make); the reference is a fresh
@@ -31,13 +38,17 @@ from . import common, project, regenvariant
 
 LEVEL = 'proof'
 RULE = ('projects are drawn from the feature grid find_files yes/no x 0..2 pkg_config calls (2 immediate files each) x '
-        'install/test rules x compdb on/off x edit kind (new file in a watched directory / build.bfg edited / both) x '
+        'install/test rules x compdb on/off x configured with --toolchain FILE or not x edit kind (new file in a watched '
+        'directory / build.bfg edited / both / only the toolchain file edited) x '
         'how the regeneration is started (make-triggered regenerate --lazy, bfg9000 regenerate, configure-into over the '
         'existing build directory, also with OTHER configure options and an unedited tree, followed up by regenerate --lazy run '
         'by hand); for each project EVERY mutation point n of the recorded run (incl. the rename of the depfile) is '
         'faulted (exhaustive), in '
         'the variants kill/raise x before/after; a case = (project, n, variant, follow-up index); non-trivial when the run '
-        'was really cut (fault fired) and distinct by (project features, abstract crash state, follow-up index)')
+        'was really cut (fault fired) and distinct by (project features, abstract crash state, follow-up index); scripts, rule '
+        'emissions and toolchain files that raise are continued by correcting the mistake and regenerating again (make, or '
+        'regenerate --lazy by hand and then make), compared with a fresh configure of the corrected tree; for every recorded '
+        'project the inputs persisted in .bfg_find_cache are compared with the prerequisites of the regeneration rule')
 TRUSTED = ('the history `options`: which options a build directory holds is read off the prefix saved in .bfg_environ',
            'GNU Make 4.3 as the consumer of the Makefile (real tool, run on every crash state)',
            'harness/inject/sitecustomize.py: the recorder / fault injector (wraps builtins.open for write modes, os.remove, '
@@ -92,28 +103,47 @@ def bfg_text(spec, v2):
     return '\n'.join(L) + '\n'
 
 
+def tc_text(gen, broken=False):
+    """The toolchain file (configure --toolchain FILE): generation `gen` of its options; broken: it raises."""
+    return "compile_options(['-DTC=%d'], 'c')\n%s" % (gen, "raise RuntimeError('C10 injected toolchain failure')\n" if broken else '')
+
+
 def v1_tree(spec):
-    return {'build.bfg': bfg_text(spec, False), 'src/a.c': 'int a(){return 1;}\n', 'main.c': 'int main(){return 0;}\n',
-            'include/a.h': '#define A\n', 'extra.c': 'int main(){return 1;}\n'}
+    t = {'build.bfg': bfg_text(spec, False), 'src/a.c': 'int a(){return 1;}\n', 'main.c': 'int main(){return 0;}\n',
+         'include/a.h': '#define A\n', 'extra.c': 'int main(){return 1;}\n'}
+    if spec.get('tc'):
+        t['tc.bfg'] = tc_text(1)
+    return t
 
 
 def apply_edit(spec, src):
     files = {}
     if spec['edit'] == 'options':
         return              # the tree stays as it is; the command line of the second configure differs
-    if spec['edit'] == 'touch':
+    if spec['edit'] == 'toolchain':
+        files['tc.bfg'] = tc_text(2, broken=spec.get('script_raise') == 'toolchain')
+    elif spec['edit'] == 'touch':
         files['src/NOTES.txt'] = 'not matched by any pattern\n'
     elif spec['edit'] in ('dir', 'both') or not spec['find']:
         files['src/b.c'] = 'int b(){return 2;}\n'
-    if spec['edit'] in ('script', 'both') or spec.get('script_raise'):
+    if spec['edit'] in ('script', 'both') or spec.get('script_raise') in ('script', 'emit'):
         files['build.bfg'] = bfg_text(spec, True)
     project.write_tree(src, files)
 
 
+def apply_correction(spec, src):
+    """The mistake of a history whose regeneration raises is corrected: the edited file as it was meant."""
+    if spec.get('script_raise') == 'toolchain':
+        project.write_tree(src, {'tc.bfg': tc_text(2)})
+    else:
+        project.write_tree(src, {'build.bfg': bfg_text(dict(spec, script_raise=None), True)})
+
+
 def spec_key(spec):
-    return 'find=%d pkg=%d inst=%d compdb=%d edit=%s runner=%s%s' % (
+    return 'find=%d pkg=%d inst=%d compdb=%d edit=%s runner=%s%s%s' % (
         spec['find'], spec['pkg'], spec['inst'], spec['compdb'], spec['edit'], spec['runner'],
-        ' followup=' + spec['followup'] if spec.get('followup', 'make') != 'make' else '')
+        ' followup=' + spec['followup'] if spec.get('followup', 'make') != 'make' else '',
+        ' toolchain-file' if spec.get('tc') else '')
 
 
 def gen_specs(rng, n, fixed=()):
@@ -123,6 +153,11 @@ def gen_specs(rng, n, fixed=()):
         s = {'find': find, 'pkg': rng.choice([0, 1, 1, 2]), 'inst': rng.random() < 0.6, 'compdb': rng.random() < 0.75,
              'edit': rng.choice(['dir', 'dir', 'script', 'both']) if find else 'script',
              'runner': rng.choice(['make', 'make', 'regen', 'configure']), 'backend': 'make'}
+        if rng.random() < 0.35:
+            # configured with --toolchain FILE; half of these histories edit that file instead
+            s['tc'] = True
+            if rng.random() < 0.5:
+                s['edit'] = 'toolchain'
         if spec_key(s) not in [spec_key(x) for x in specs]:
             specs.append(s)
     return specs
@@ -142,8 +177,10 @@ def verif_env(build, trace=None, fault=None, only=None, probe=None):
     return e
 
 
-def conf_args(spec, new=False):
+def conf_args(spec, new=False, src=None):
     a = [] if spec['compdb'] else ['--disable-compdb']
+    if spec.get('tc'):
+        a = a + ['--toolchain', os.path.join(src, 'tc.bfg')]
     if spec['edit'] == 'options':
         a = a + (NEW_OPTIONS if new else OLD_OPTIONS)
     return a
@@ -180,7 +217,7 @@ class Bench:
             self.trace = os.path.join(self.root, 'trace.jsonl')
             os.mkdir(self.src)
             project.write_tree(self.src, v1_tree(spec))
-            rc, out = project.configure(self.src, self.build, backend=spec['backend'], extra_args=conf_args(spec))
+            rc, out = project.configure(self.src, self.build, backend=spec['backend'], extra_args=conf_args(spec, src=self.src))
             if rc != 0:
                 raise RuntimeError('configure of v1 failed: ' + out[-600:])
             if spec['backend'] == 'make' and spec.get('built', True):      # built=False: configured, never built (no stamp yet)
@@ -196,7 +233,7 @@ class Bench:
             # reference: fresh configure of the edited tree (not for scripts that raise: there is no uninterrupted result)
             self.ref = None
             if not spec.get('script_raise'):
-                rc, out = project.configure(self.src, self.fresh, backend=spec['backend'], extra_args=conf_args(spec, True))
+                rc, out = project.configure(self.src, self.fresh, backend=spec['backend'], extra_args=conf_args(spec, True, src=self.src))
                 if rc != 0:
                     raise RuntimeError('fresh configure of v2 failed: ' + out[-600:])
                 self.ref = self.contents(self.fresh)
@@ -265,7 +302,7 @@ class Bench:
         if r == 'regen_lazy':
             return project.run_bfg(['regenerate', '--lazy', self.build], cwd=self.build, extra_env=extra_env)
         if r == 'configure':
-            return project.configure(self.src, self.build, backend=self.spec['backend'], extra_args=conf_args(self.spec, True),
+            return project.configure(self.src, self.build, backend=self.spec['backend'], extra_args=conf_args(self.spec, True, src=self.src),
                                      extra_env=extra_env)
         raise ValueError(r)
 
@@ -279,6 +316,36 @@ class Bench:
         pr = open(probe).read().split() if os.path.exists(probe) else []
         state = self.classify()
         return rc, out, procs, ops, pr, state
+
+
+def regen_inputs(src, build, backend):
+    """(inputs of the regeneration step as persisted in .bfg_find_cache, prerequisites of the regeneration rule in the build
+    file), both as sorted lists of absolute paths; None when there is no find cache / no such rule."""
+    try:
+        data = json.load(open(os.path.join(build, '.bfg_find_cache')))['data']['regen_files']['inputs']
+    except (OSError, ValueError, KeyError):
+        return None
+    roots = {'srcdir': src, 'builddir': build}
+    saved = sorted(os.path.normpath(p if r == 'absolute' else os.path.join(roots[r], p)) for p, r, _ in data)
+    text = open(os.path.join(build, 'Makefile' if backend == 'make' else 'build.ninja')).read()
+    lines = text.split('\n')
+    rule = None
+    if backend == 'make':
+        for i, line in enumerate(lines):
+            if line.startswith('\t') and 'regenerate --lazy' in line and i and ':' in lines[i - 1]:
+                rule = lines[i - 1].split(':', 1)[1].split()
+    else:
+        for line in lines:
+            if line.startswith('build ') and ': regenerate' in line:
+                rule = line.split(': regenerate', 1)[1].replace('|', ' ').split()
+    if rule is None:
+        return None
+    out = []
+    for w in rule:
+        for var in ('$(srcdir)', '${srcdir}', '$srcdir'):
+            w = w.replace(var, src)
+        out.append(os.path.normpath(w if os.path.isabs(w) else os.path.join(build, w)))
+    return saved, sorted(out)
 
 
 def environ_state(build):
@@ -494,7 +561,10 @@ FILEN = {0: ('env',), 2: ('deps',), 3: ('cache',), 4: ('build',), 5: ('stamp',),
 STATE = {0: 'absent', 1: 'empty', 2: 'old', 3: 'new'}
 AUX = {0: 'absent', 1: 'empty', 2: 'full', 3: 'full'}
 EDITS = {'dir': [False, True, False], 'script': [True, False, False], 'both': [True, True, False],
-         'touch': [False, False, True]}
+         'touch': [False, False, True],
+         # the toolchain file is an explicit input of the regeneration step like the scripts: e_script = some explicit input is
+         # newer than the outputs
+         'toolchain': [True, False, False]}
 
 
 def dec_op(r):
@@ -616,6 +686,17 @@ def stage_trace(rep, specs):
         if o['rc'] != 0 or any(v != 'new' for v in o['state'].values()):
             rep.fail('%s: the uninterrupted regeneration exits %d with %r (expected 0 and files equal to a fresh configure)'
                      % (key, o['rc'], o['state']), {'spec': spec, 'rc': o['rc'], 'state': o['state'], 'out': o['out']})
+        # oracle:regen_inputs - what `regenerate --lazy` compares is what the build tool compares
+        for which, ri in sorted(o.get('regen_inputs', {}).items()):
+            if ri is None:
+                continue
+            rep.case('regen_inputs:%s:%s' % (key, which), len(ri[1]) > 1)
+            rep.count('regen_inputs:%d' % len(ri[1]))
+            if ri[0] != ri[1]:
+                rep.fail('%s (%s build directory): the regeneration rule of the build file has the prerequisites %r, the inputs '
+                         'persisted in .bfg_find_cache for `regenerate --lazy` are %r: an edit of %r starts a lazy regeneration '
+                         'that sees nothing newer' % (key, which, ri[1], ri[0], sorted(set(ri[1]) - set(ri[0]))),
+                         {'spec': spec, 'which': which, 'rule_prerequisites': ri[1], 'saved_inputs': ri[0]})
     rep.sample({'stage': 'W:run_ops', 'spec': spec_key(specs[0]), 'ops': [' '.join(map(str, x)) for x in
                                                                             traces.get(spec_key(specs[0]), ([], 0))[0]]})
     n, ok, detail = common.vm_crosscheck(calls, raws, limit=40)
@@ -631,7 +712,9 @@ def trace_one(spec):
         with Bench(spec) as b:
             rc, out, procs, ops, pr, state = b.traced_run()
             return {'rc': rc, 'out': out[-500:], 'aops': abstract_ops(spec, ops), 'probe': sorted(set(pr)), 'state': state,
-                    'same': {n: b.ref[n] == b.v1[n] for n in b.ref}, 'names': b.watched()}
+                    'same': {n: b.ref[n] == b.v1[n] for n in b.ref}, 'names': b.watched(),
+                    'regen_inputs': {'regenerated': regen_inputs(b.src, b.build, spec['backend']),
+                                     'fresh': regen_inputs(b.src, b.fresh, spec['backend'])}}
     except Exception:
         return {'error': traceback.format_exc()}
 
@@ -724,8 +807,23 @@ def raise_one(spec):
             same1 = b.contents(b.build)[bf] == b.v1[bf]
             rc2, _, out2 = project.make(b.build, [], stub_tools=True)
             same2 = b.contents(b.build)[bf] == b.v1[bf]
+            # fail-then-correct: the mistake is repaired and the regeneration started again, by make or (a project with a find
+            # cache may take the lazy short cut) by the backend's own command run by hand and then make
+            time.sleep(0.03)
+            apply_correction(spec, b.src)
+            time.sleep(0.03)
+            rcf, o = project.configure(b.src, b.fresh, backend=spec['backend'], extra_args=conf_args(spec, True, src=b.src))
+            if rcf != 0:
+                raise RuntimeError('fresh configure of the corrected tree failed: ' + o[-600:])
+            b.ref = b.contents(b.fresh)
+            rc3, out3 = 0, ''
+            if spec.get('followup') == 'lazy':
+                rc3, out3 = project.run_bfg(['regenerate', '--lazy', b.build], cwd=b.build)
+            if rc3 == 0:
+                rc3, _, out3 = project.make(b.build, [], stub_tools=True)
             return {'rc': rc, 'out': out[-500:], 'ops': ops, 'identical': same1, 'rc2': rc2, 'identical2': same2,
-                    'out2': out2[-300:]}
+                    'out2': out2[-300:], 'rc3': rc3, 'state3': b.classify(), 'out3': out3[-400:],
+                    'regen_inputs': regen_inputs(b.src, b.build, spec['backend'])}
     except Exception:
         return {'error': traceback.format_exc()}
 
@@ -738,7 +836,15 @@ def stage_script_raise(rep, rng, thorough):
     for how in ('script', 'emit'):
         for runner in (('make', 'regen', 'configure') if thorough else ('make', 'regen')):
             specs.append({'find': rng.random() < 0.7, 'pkg': rng.choice([0, 1, 2]) if thorough else 1, 'inst': True,
-                          'compdb': True, 'edit': 'script', 'runner': runner, 'backend': 'make', 'script_raise': how})
+                          'compdb': True, 'edit': 'script', 'runner': runner, 'backend': 'make', 'script_raise': how,
+                          'tc': rng.random() < 0.3, 'followup': rng.choice(['make', 'lazy'])})
+    # the edited toolchain file raises; with and without a find cache; corrected, then make / regenerate --lazy by hand
+    for runner, find, followup in ((('make', True, 'make'), ('regen_lazy', True, 'lazy'), ('make', False, 'make'),
+                                    ('regen', True, 'lazy'), ('configure', True, 'make')) if thorough else
+                                   (('make', True, 'make'), ('regen_lazy', True, 'lazy'), ('make', False, 'make'))):
+        specs.append({'find': find, 'pkg': rng.choice([0, 1, 2]), 'inst': rng.random() < 0.6, 'compdb': True,
+                      'edit': 'toolchain', 'runner': runner, 'backend': 'make', 'script_raise': 'toolchain', 'tc': True,
+                      'followup': followup})
     bad, dis = 0, []
     with concurrent.futures.ProcessPoolExecutor(max_workers=8) as ex:
         outs = list(ex.map(raise_one, specs))
@@ -752,6 +858,21 @@ def stage_script_raise(rep, rng, thorough):
         if o['rc'] == 0 or not o['identical'] or o['rc2'] == 0 or not o['identical2']:
             if rep.fail('%s: the failing regeneration exits %d (build file identical: %s); the next make exits %d (identical: %s)'
                         % (key, o['rc'], o['identical'], o['rc2'], o['identical2']), {'spec': spec, 'result': o}):
+                bad += 1
+        # fail-then-correct: once the mistake is repaired the next attempt must fail visibly or bring every file up to date
+        rep.case('raise-corrected:' + key, True)
+        rep.count('raise-corrected:followup=' + spec.get('followup', 'make'))
+        stale = sorted(f for f, v in o['state3'].items() if v != 'new')
+        if o['rc3'] == 0 and stale:
+            if rep.fail('%s: the regeneration failed (exit %d), the mistake was corrected, and the next attempt (%s) exits 0 '
+                        'while %s (compared with a fresh configure of the corrected tree)'
+                        % (key, o['rc'], 'regenerate --lazy, then make' if spec.get('followup') == 'lazy' else 'make',
+                           ', '.join('%s is %s' % (f, o['state3'][f]) for f in stale)),
+                        {'spec': spec, 'result': o, 'stale': {f: o['state3'][f] for f in stale}}):
+                bad += 1
+        elif o['rc3'] != 0:
+            if rep.fail('%s: after the mistake was corrected the regeneration still fails (exit %d): %s'
+                        % (key, o['rc3'], o['out3'][-300:]), {'spec': spec, 'result': o}):
                 bad += 1
         # model: the mutations before the exception are a prefix of pre_ops and do not contain the build file
         shift = 1 if spec['runner'] == 'configure' else 0
@@ -788,6 +909,10 @@ TRACE_ONLY = (
     {'find': True, 'pkg': 1, 'inst': True, 'compdb': True, 'edit': 'touch', 'runner': 'make', 'backend': 'make'},
     {'find': True, 'pkg': 1, 'inst': False, 'compdb': True, 'edit': 'dir', 'runner': 'regen_lazy', 'backend': 'ninja'},
     {'find': False, 'pkg': 1, 'inst': True, 'compdb': True, 'edit': 'script', 'runner': 'regen', 'backend': 'ninja'},
+    # configured with --toolchain FILE, that file edited: started by make / by hand (lazy) on the Ninja backend
+    {'find': True, 'pkg': 1, 'inst': True, 'compdb': True, 'edit': 'toolchain', 'runner': 'make', 'backend': 'make', 'tc': True},
+    {'find': True, 'pkg': 0, 'inst': False, 'compdb': True, 'edit': 'toolchain', 'runner': 'regen_lazy', 'backend': 'ninja',
+     'tc': True},
 )
 
 
@@ -891,6 +1016,7 @@ def run(rep):
     if thorough:
         fault_specs.append(dict(TRACE_ONLY[2]))          # lazy skip run, faulted too
         fault_specs.append(dict(TRACE_ONLY[0]))          # no find_files at all
+        fault_specs.append(dict(TRACE_ONLY[5]))          # the toolchain file edited, every mutation point faulted
     trace_specs = fault_specs + [dict(s) for s in TRACE_ONLY if spec_key(s) not in [spec_key(x) for x in fault_specs]]
     traces, dis = stage_trace(rep, trace_specs)
     kinds = ('kill_before', 'kill_after', 'raise_before', 'raise_after')
